@@ -1,4 +1,5 @@
-"""C13 — ring-buffer queue is a faithful byte deque (mptcore/queue/*.c, mpt++/io_queue.cpp, mpt++/queue.cpp)."""
+"""C13 — ring-buffer queue is a faithful byte deque (mptcore/queue/*.c, mpt++/io_queue.cpp, mpt++/queue.cpp,
+raw message mode of decode_queue: queue_recv.c / queue_peek.c / queue_shift.c without decoder)."""
 import hashlib
 import os
 import random
@@ -26,11 +27,13 @@ def rbytes(rng, n):
 OPS1 = ["push", "unshift", "pop", "shift", "crop", "get", "set", "setz", "align", "resize", "prepare", "find", "string"]
 IOOPS = ["ioprepare", "iopush", "iopushz", "iounshift", "iounshiftz", "iopop", "ioshift", "iowrite", "ioread", "iopeek", "ionew"]
 EOPS = ["epush", "efin", "erev", "etrim"]
+DOPS = ["dset", "drecv", "dpeek", "dshift", "dadv", "dcur"]
 ARITY = {"push": 1, "unshift": 1, "pop": 2, "shift": 2, "crop": 2, "get": 2, "set": 2, "setz": 2, "align": 1,
          "resize": 1, "prepare": 1, "find": 2, "string": 0,
          "ioprepare": 1, "iopush": 1, "iopushz": 1, "iounshift": 1, "iounshiftz": 1, "iopop": 2, "ioshift": 2,
          "iowrite": 3, "ioread": 2, "iopeek": 1, "ionew": 1,
-         "epush": 1, "efin": 0, "erev": 0, "etrim": 1, "xround": 1}
+         "epush": 1, "efin": 0, "erev": 0, "etrim": 1, "xround": 1,
+         "dset": 5, "drecv": 0, "dpeek": 2, "dshift": 0, "dadv": 0, "dcur": 1}
 
 
 def grow_cap(cap, used, n):
@@ -83,6 +86,29 @@ def e_single_ops(mx, ln):
     return out
 
 
+def d_single_cases(mx, off, ln):
+    """raw decode_queue: every small decoder state x every single operation for one ring state"""
+    c = hx([0x10 + i for i in range(ln)])
+    head = [str(mx), str(off), c]
+    ops = [["drecv"], ["dshift"], ["dadv"], ["dcur", "0"], ["dcur", "1"]]
+    for n in sorted(set([0, 1, ln, ln + 1])):
+        ops.append(["dpeek", str(n), "0"])
+        ops.append(["dpeek", str(n), "1"])
+    out = []
+    vals = sorted(set([0, 1, ln, ln + 1]))
+    for curr in sorted(set([0, 1, ln + 1])):
+        for pos in vals:
+            for dl in sorted(set([0, 1, ln])):
+                for msg in [-1] + vals[:3]:
+                    for ctx in ((0, 1) if (pos == 0 and dl == 0 and curr) else (0,)):
+                        st = ["dset", str(curr), str(pos), str(dl), str(msg), str(ctx)]
+                        for o in ops:
+                            if curr == 0 and o[0] == "dshift" and pos:
+                                continue
+                            out.append(" ".join(head + st + o))
+    return out
+
+
 def single_ops(mx, ln):
     """every operation with every interesting argument for a (max,len) state"""
     out = []
@@ -130,8 +156,13 @@ class C13(DiffProperty):
             "resize/prepare/find/string mixed with the io::queue methods prepare/push/unshift(data and zero fill)/pop/shift"
             "(with and without target)/write/read/peek/destructor+constructor on the same queue; (b) raw encode_queue: "
             "push/finish/revert/trim; (c) a message through encode_queue(COBS) into decode_queue(COBS): push, terminate, "
-            "trim, advance, current_message. quick: every start state with capacity<=5 x every single C operation, and "
-            "capacity<=4 x every single io::queue / encode_queue method, x every argument value up to one past the limit "
+            "trim, advance, current_message; (d) decode_queue WITHOUT decoder (raw message mode): any installed decoder state "
+            "(curr, pos, len, msg, ctx) or the constructor's, then mpt_queue_recv / mpt_queue_peek (with and without target, "
+            "every max) / mpt_queue_shift / decode_queue::advance / current_message (with and without room for the second "
+            "part) mixed with the C operations on the embedded queue (data arrives by push, is taken away by crop/shift/pop, "
+            "the ring is moved by align/resize/prepare). quick: every start state with capacity<=5 x every single C operation, and "
+            "capacity<=4 x every single io::queue / encode_queue method, capacity<=3 x every small decoder state x every "
+            "single raw decode_queue operation, x every argument value up to one past the limit "
             "(exhaustive), plus random histories with arguments drawn around len, free space and the two segments; "
             "io::queue::write with part>0 and count>0 only once docs/C13_io_write.diff is in the tree (IO_WRITE_PATCHED); "
             "a case is non-trivial when its start state holds data or an operation moves data; distinct = distinct case text")
@@ -139,20 +170,32 @@ class C13(DiffProperty):
                 "queue_align,queue_resize,queue_find,queue_string,memrev}.c and the methods of mpt++/io_queue.cpp (io::queue: "
                 "compositions of the former; write AS PATCHED by docs/C13_io_write.diff) transcribed in coq/C13/QueueModel.v; "
                 "mpt++/queue.cpp encode_queue::push/trim without encoder function together with the raw branch of "
-                "mptcore/queue/queue_push.c in coq/C13/EncQueueModel.v; realloc/free and errno kinds are not modelled "
-                "(refusals compared as a class); mpt++/queue.cpp decode_queue::advance/current_message and encode_queue "
-                "with an encoder are NOT modelled: they are executed with the COBS codec and compared with the "
-                "specification only (the message comes out as it went in, both rings are left empty)")
+                "mptcore/queue/queue_push.c in coq/C13/EncQueueModel.v; decode_queue without decoder function in "
+                "coq/C13/DecQueueModel.v: the raw branch (`!qu->_dec`) of mptcore/queue/queue_recv.c and of queue_peek.c, "
+                "queue_shift.c, mpt++/queue.cpp decode_queue::advance / current_message with mptcore/message/message_get.c and "
+                "message_read.c underneath (the message as a list of storage fragments, every memcpy a checked read), the "
+                "counters as natural numbers (no 2^64 wrap-around); realloc/free and errno kinds are not modelled "
+                "(refusals compared as a class); the CODED paths (decode_queue with a decoder: the rest of queue_recv.c / "
+                "queue_peek.c, encode_queue with an encoder) are NOT modelled here: they are executed with the COBS codec and "
+                "compared with the specification only (the message comes out as it went in, both rings are left empty); "
+                "their models and theorems are C02/C03's (coq/Cobs)")
     trusted = ["harness/c13_ops.h (used by c13_queue.c and c13_cxx.cpp) reads the ring back independently ((off+i) mod max) "
                "after every operation",
-               "harness/c13_cxx.cpp reaches the protected queue / coder state of the mpt++ objects through subclasses",
+               "harness/c13_cxx.cpp reaches the protected queue / coder state of the mpt++ objects through subclasses; it "
+               "installs decoder states (dset) by writing the five fields of decode_state",
                "realloc is assumed to keep the common prefix and to succeed"]
     level_text = ("proof: Coq theorems C13_step_refines_deque / C13_history_refines_deque / C13_refused_leaves_content / "
                   "C13_memrev_rotates / C13_io_write_complete state, for every capacity, offset, fill and operation history over "
                   "the C functions AND the io::queue methods (no bound), that the transcribed ring-buffer mechanism yields exactly "
                   "the outputs and bytes of a plain byte deque, never accesses outside its storage and leaves refused operations "
                   "without effect; C13_enc_step_refines / C13_enc_history_refines / C13_enc_finished_stable state the same for "
-                  "the raw encode_queue against a deque split into finished and unfinished bytes; the models are tied to the code "
+                  "the raw encode_queue against a deque split into finished and unfinished bytes; C13_dec_step_refines / "
+                  "C13_dec_history_refines state it for decode_queue without decoder (recv, peek, shift, advance, current_message "
+                  "mixed with the C operations, from ANY decoder state) against the deque plus counters, C13_dec_peek_exact / "
+                  "C13_dec_current_exact / C13_dec_current_complete that what is read is exactly the announced window of the content "
+                  "(and is read whenever it lies inside), C13_dec_only_consumes that this layer never alters stored bytes (it drops at "
+                  "most `curr` consumed bytes at the front), C13_dec_raw_never_offers that a freshly constructed raw decode_queue "
+                  "never delivers a message (finding); the models are tied to the code "
                   "on every run by differential execution (exhaustive over all small start states x single operations, plus "
                   "random histories) under ASan/UBSan; the coded path of mpt++/queue.cpp is compared with its specification only")
     level_note = ("trusted: Coq kernel; hand transcription of mptcore/queue/*.c, mpt++/io_queue.cpp, mpt++/queue.cpp (validated "
@@ -161,12 +204,19 @@ class C13(DiffProperty):
                   "unpatched loop test is a defect, replay docs/C13_io_write_replay.json) and its loop cases stay switched off "
                   "until the patch is committed; io::queue::peek: the specification accepts any long-enough prefix of the "
                   "content (its exact length depends on the wrap position and is taken from the run); decode_queue::advance / "
-                  "current_message and encode_queue with an encoder: no model, specification-level comparison of a COBS round "
-                  "trip only (codec theorems are C01/C02). Theorems are closed under the global context (no axioms).")
+                  "current_message and encode_queue WITH a coder function: no model here, specification-level comparison of a COBS "
+                  "round trip only (codec theorems are C01/C02/C03); decode_queue WITHOUT decoder: the specification mirrors the "
+                  "counter arithmetic of the raw branch as it is coded (which window is 'the message' is not constrained by the deque "
+                  "property); what the theorems add is that every read is a slice of the deque content wherever the ring wraps and "
+                  "that nothing but consumed front bytes ever disappears; the raw branch never delivers a message from a fresh queue "
+                  "and double-counts the window once a message is delivered (docs/notes_C13.md, outside the property's statement, "
+                  "not patched); current_message without room for a second part may refuse a message that straddles the wrap "
+                  "(implementation's decision, as for pop/shift without target). Theorems are closed under the global context (no axioms).")
     technique = "Coq refinement proof (ring buffer -> byte deque) + differential correspondence check"
     assumptions = ["realloc succeeds", "element comparison callback of mpt_queue_find is pure",
                    "operations with a target buffer are not applied to an unallocated queue (max = 0: memcpy from a null base)",
-                   "byte counts stay below 2^63 (io::queue::pop without target computes len - n modulo 2^64)"]
+                   "byte counts stay below 2^63 (io::queue::pop without target computes len - n modulo 2^64)",
+                   "decoder counters (curr, pos, len, msg) stay below 2^31 (mpt_queue_peek without target returns len - off through an int)"]
 
     def split(self, case):
         t = case.split()
@@ -182,7 +232,7 @@ class C13(DiffProperty):
 
     def is_cxx(self, case):
         _, ops = self.split(case)
-        return any(o[0] in IOOPS or o[0] in EOPS or o[0] == "xround" for o in ops)
+        return any(o[0] in IOOPS or o[0] in EOPS or o[0] in DOPS or o[0] == "xround" for o in ops)
 
     def ops_rev(self):
         with open(os.path.join(vcheck.VERIF, "harness", "c13_ops.h"), "rb") as fh:
@@ -213,7 +263,8 @@ class C13(DiffProperty):
 
     def shrink_candidates(self, case):
         hdr, ops = self.split(case)
-        for k in range(len(ops)):
+        keep1 = 1 if ops and ops[0][0] == "dset" else 0   # the first dset selects the decode_queue harness
+        for k in range(keep1, len(ops)):
             yield self.join(hdr, ops[:k] + ops[k + 1:])
         for k in range(1, len(ops)):
             yield self.join(hdr, ops[:k])
@@ -249,6 +300,14 @@ class C13(DiffProperty):
                 cl.add("encode_queue-raw")
             if o[0] == "xround":
                 cl.add("coded-round-trip")
+            if o[0] in DOPS:
+                cl.add("decode_queue-raw")
+            if o[0] == "dset" and o[1:] != ["0", "0", "0", "-1", "0"]:
+                cl.add("decode_queue-raw-installed-state")
+            if o[0] == "dset" and o[4] != "-1":
+                cl.add("decode_queue-raw-delivered-message")
+            if o[0] == "dset" and o[1] != "0":
+                cl.add("decode_queue-raw-consumed-input")
         if len(ops) > 1:
             cl.add("history")
         if any(o[0] in IOOPS for o in ops) and any(o[0] in OPS1 for o in ops):
@@ -338,6 +397,28 @@ class C13(DiffProperty):
             return [op], ((done, done) if ln > done else (ln, done))
         n = rng.choice([0, 1, around(done), rng.randrange(0, done + 2)])
         return [op, str(n)], ((ln - n, done - n) if n <= done else (ln, done))
+
+    def gen_d_op(self, rng, ln):
+        """one operation of a raw decode_queue"""
+        around = lambda v: max(0, v + rng.choice([-2, -1, 0, 0, 1]))
+        op = rng.choice(["drecv", "drecv", "drecv", "dadv", "dadv", "dpeek", "dpeek", "dcur", "dshift", "dset"])
+        if op == "dpeek":
+            return [op, str(rng.choice([0, 1, around(ln), rng.randrange(0, ln + 3)])), str(rng.choice([0, 1, 1]))]
+        if op == "dcur":
+            return [op, str(rng.choice([0, 1, 1]))]
+        if op == "dset":
+            return self.gen_d_state(rng, ln)
+        return [op]
+
+    def gen_d_state(self, rng, ln):
+        around = lambda v: max(0, v + rng.choice([-2, -1, 0, 0, 1]))
+        small = lambda: rng.choice([0, 0, 1, 2, around(ln), rng.randrange(0, ln + 2)])
+        pos = small()
+        rest = max(0, ln - pos)
+        msg = rng.choice([-1, -1, 0, 1, rest, around(rest), rng.randrange(0, rest + 2)])
+        dl = rng.choice([0, 1, rest, around(rest), max(0, rest - max(msg, 0)), rng.randrange(0, rest + 2)])
+        curr = rng.choice([0, 0, 0, pos, around(pos), small()])
+        return ["dset", str(curr), str(pos), str(dl), str(msg), str(rng.choice([0, 0, 0, 1]))]
 
     def gen_op(self, rng, mx, ln):
         free = mx - ln
@@ -435,6 +516,35 @@ class C13(DiffProperty):
             ops = []
             for _ in range(rng.choice([1, 2, 3, 5, 8, 12, 20])):
                 o, (l, d) = self.gen_e_op(rng, mx, l, d)
+                ops += o
+            cases.append(" ".join([str(mx), str(off), hx(c)] + ops))
+        # raw decode_queue: every small decoder state x single operation, then histories in which data
+        # arrives (push), is taken away (crop / shift / pop) and the queue is moved (align / resize)
+        # between recv / peek / shift / advance / current_message
+        for mx in range(1, (3 if quick else 5) + 1):
+            for off in range(0, mx + 1):
+                for ln in range(0, mx + 1):
+                    cases += d_single_cases(mx, off, ln)
+        for i in range(2500 if quick else 40000):
+            mx, off, c = self.gen_state(rng, 300 if i % 10 == 0 else 24)
+            m, l = mx, len(c)
+            fresh = rng.random() < 0.4
+            ops = ["dset", "0", "0", "0", "-1", "0"] if fresh else self.gen_d_state(rng, l)
+            mix = rng.choice([0.2, 0.4, 0.6])
+            for _ in range(rng.choice([1, 2, 3, 5, 8, 12, 20])):
+                if m and rng.random() < mix:
+                    if rng.random() < 0.5:
+                        n = rng.choice([1, 2, 3, max(0, m - l), rng.randrange(0, max(1, m - l) + 2)])
+                        o, (m, l) = ["push", hx(rbytes(rng, n))], (m, l + n if (n <= m - l and m > l) else l)
+                    else:
+                        o, (m, l) = self.gen_op(rng, m, l)
+                    if o[0] in ("find", "string"):
+                        continue
+                else:
+                    o = self.gen_d_op(rng, l)
+                    if fresh and o[0] == "dset":
+                        continue
+                    l = max(0, l - 2) if o[0] in ("drecv", "dadv", "dshift") else l  # approximate
                 ops += o
             cases.append(" ".join([str(mx), str(off), hx(c)] + ops))
         # messages through encode_queue(COBS) -> decode_queue(COBS); both rings start empty at <off>
